@@ -81,6 +81,7 @@ pub fn families(format: Format, tier: Tier) -> Vec<Family> {
             endings,
         }),
         Family::Recs(recs),
+        Family::Recs(long_files(format, true)),
     ]
 }
 
